@@ -88,15 +88,29 @@ Definition ll_elem_ok (a : obj) : bool :=
   | _ => false
   end.
 
-(* the guard *)
-Fixpoint loadable (v : obj) : bool :=
+(* a documentation string the pretty printer leaves alone: printer.go:760 AppendDoc drops every '_', does not escape
+   quotes or backslashes, and re-flows the text at the margin [C19-doc-string-mangled]; inside the guard a lambda
+   carries a doc string only at top level, where 2 + 2 + 14 columns fit the narrowest margin *)
+Definition doc_char_ok (c : ascii) : bool :=
+  let n := nat_of_ascii c in ((32 <=? n) && (n <? 127) && negb (n =? 34) && negb (n =? 92) && negb (n =? 95))%nat.
+Fixpoint doc_chars_ok (s : string) : bool :=
+  match s with EmptyString => true | String c r => doc_char_ok c && doc_chars_ok r end.
+Definition doc_ok (s : string) : bool := doc_chars_ok s && (String.length s <=? 14)%nat.
+
+Definition lam_ok (ll : list obj) (doc : string) (body : list obj) : bool :=
+  forallb ll_elem_ok ll
+  && (negb (doc =? "") || match body with Str _ :: _ :: _ => false | _ => true end)
+  && ((doc =? "") || negb (match body with [] => true | _ => false end)).
+
+(* the guard, for a value nested inside another *)
+Fixpoint loadable_in (v : obj) : bool :=
   match v with
   | Nil | T | Fix _ | Str _ | Big _ => true
   | Atom k tok => atom_ok k tok
   | Sym s => (is_keyword s && plain_sym s)      (* any other symbol would have to be quoted [C19-symbol-unquoted] *)
              || existsb (String.eqb s) self_bound   (* ... unless it is a constant bound to itself *)
-  | L xs => negb (match xs with [] => true | _ => false end) && forallb loadable xs
-  | Dot xs tl => negb (match xs with [] => true | _ => false end) && forallb loadable xs && loadable tl
+  | L xs => negb (match xs with [] => true | _ => false end) && forallb loadable_in xs
+  | Dot xs tl => negb (match xs with [] => true | _ => false end) && forallb loadable_in xs && loadable_in tl
                  && match tl with Nil | L _ | Dot _ _ => false | _ => true end
   | Vec xs et adj =>
       adj                                          (* [C19-adjustable-lost] *)
@@ -109,11 +123,15 @@ Fixpoint loadable (v : obj) : bool :=
       forallb (fun kv => hash_key_ok (fst kv)            (* [C19-hash-keys-dropped] *)
                          && self_evaluating (snd kv)) kvs  (* [C19-hash-values-unevaluated] *)
       && keys_distinct (map fst kvs)
-  | Lam ll doc body =>
-      forallb ll_elem_ok ll
-      && (negb (doc =? "") || match body with Str _ :: _ :: _ => false | _ => true end)
-      && ((doc =? "") || negb (match body with [] => true | _ => false end))
+  | Lam ll doc body => lam_ok ll doc body && (doc =? "")
   | Opaque _ => false
+  end.
+
+(* the guard *)
+Definition loadable (v : obj) : bool :=
+  match v with
+  | Lam ll doc body => lam_ok ll doc body && doc_ok doc
+  | _ => loadable_in v
   end.
 
 Fixpoint has_lambda (v : obj) : bool :=
